@@ -11,11 +11,13 @@ import (
 	"hash/fnv"
 	"math/rand"
 	"os"
+	"os/signal"
 	"path/filepath"
 	"sort"
 	"strconv"
 	"strings"
 	"sync"
+	"syscall"
 	"time"
 )
 
@@ -372,3 +374,82 @@ func oneLine(s string) string {
 
 // Q quotes a string for messages.
 func Q(s string) string { return strconv.Quote(s) }
+
+var (
+	exitMu    sync.Mutex
+	exitFuncs []func()
+)
+
+// AtExit registers a cleanup function run before the process exits through
+// Main (normal end, infrastructure error, SIGINT/SIGTERM).
+func AtExit(f func()) { exitMu.Lock(); exitFuncs = append(exitFuncs, f); exitMu.Unlock() }
+
+func runExit() {
+	exitMu.Lock()
+	fs := exitFuncs
+	exitFuncs = nil
+	exitMu.Unlock()
+	for _, f := range fs {
+		f()
+	}
+}
+
+// Main is the entry point of every per-property binary:
+//
+//	<bin> [--tier quick|thorough] [--replay file]     run the check
+//	<bin> --child <name> args...                      child-process worker (no verdicts)
+func Main(id string, run func(*Ctx), children map[string]func(args []string) int) {
+	args := os.Args[1:]
+	if len(args) >= 2 && args[0] == "--child" {
+		fn, ok := children[args[1]]
+		if !ok {
+			fmt.Fprintf(os.Stderr, "unknown child %q\n", args[1])
+			os.Exit(ExitInconclusive)
+		}
+		os.Exit(fn(args[2:]))
+	}
+	tier := os.Getenv("VERIF_TIER")
+	if tier == "" {
+		tier = "quick"
+	}
+	replay := ""
+	for i := 0; i < len(args); i++ {
+		switch args[i] {
+		case "--tier":
+			if i+1 < len(args) {
+				tier = args[i+1]
+				i++
+			}
+		case "--replay":
+			if i+1 < len(args) {
+				replay = args[i+1]
+				i++
+			}
+		}
+	}
+	c := NewCtx(id, tier)
+	c.ReplayFile = replay
+	sig := make(chan os.Signal, 1)
+	signal.Notify(sig, syscall.SIGINT, syscall.SIGTERM)
+	go func() {
+		<-sig
+		runExit()
+		fmt.Printf("INFRASTRUCTURE property=%s interrupted\n", id)
+		os.Exit(ExitInconclusive)
+	}()
+	func() {
+		defer func() {
+			if r := recover(); r != nil {
+				runExit()
+				if ie, ok := r.(InfraError); ok {
+					fmt.Printf("INFRASTRUCTURE property=%s %s\n", id, ie.Msg)
+					os.Exit(ExitInconclusive)
+				}
+				panic(r)
+			}
+		}()
+		run(c)
+	}()
+	runExit()
+	os.Exit(c.Finish())
+}
